@@ -97,6 +97,7 @@ class Interp(StmtMixin, OpsMixin, ObjMixin, CallMixin):
         self.no_summary = set()
         self._instantiable = None
         self.expr_nsp = None
+        self.carried = []
         self.namespace_root = None
         self.summaries = {}
         self.method_summaries = {}
@@ -154,6 +155,7 @@ class Interp(StmtMixin, OpsMixin, ObjMixin, CallMixin):
         pr.recursion_cut = self.recursion_cut
         pr.fresh_in_condition = self.fresh_in_condition
         pr.intervals = dict(self.intervals)
+        pr.carried = self.carried
         return pr
 
 
